@@ -63,4 +63,11 @@ LPlaceEra(era, r, ts) ==
   THEN era + (IF LLess(ts, r) THEN 1 ELSE 0)     \* ahead of ref, maybe past the wrap
   ELSE era - (IF LLess(r, ts) THEN 1 ELSE 0)     \* behind ref, maybe before the wrap
 LPlaceConstrained(era, r, ts) == LPlaceDefined(r, ts) /\ LPlaceEra(era, r, ts) >= 0
+
+\* Windows (Serial!InWindow / WellFormed / WindowDecision) on limb pairs
+LInWindow(lo, hi, x) == LCmp(lo, x) \in {"LT", "EQ"} /\ LCmp(x, hi) = "LT"
+LWellFormed(lo, hi) == LLess(LSub(hi, lo), LHalf)
+LWindowDecision(lo, hi, x) ==
+  IF ~LWellFormed(lo, hi) THEN "any"
+  ELSE IF LInWindow(lo, hi, x) THEN "accept" ELSE "reject"
 =============================================================================
